@@ -9,7 +9,7 @@ from ..cfg import own_exprs
 from ..facts import Fact, atoms, enumerate_paths
 from ..report import Ctx
 from ..suspend import node_suspension
-from .common import always_before, expand, guard, increment_of, need, node_of, single_defs, stmts_matching
+from .common import NotTabulable, OrderEval, always_before, expand, filtered_copy, guard, increment_of, need, node_of, single_defs, stmts_matching
 
 WAL = "happysimulator/components/storage/wal.py"
 LSM = "happysimulator/components/storage/lsm_tree.py"
@@ -137,19 +137,13 @@ def run(ctx: Ctx) -> None:
             if isinstance(st, (ast.Assign, ast.AugAssign)) and path_of(st.targets[0] if isinstance(st, ast.Assign) else st.target) == "self._synced_up_to_sequence" and fn.qual not in ("WriteAheadLog.__init__", "WriteAheadLog.append"):
                 ctx.ob("C15-1", "G6", fn, st, False, "the durability point is written outside append()")
     cr = prog.func(WAL, "WriteAheadLog.crash")
-    keep = [s for s in walk_stmts(cr.node.body) if isinstance(s, ast.Assign) and path_of(s.targets[0]) == "self._entries" and isinstance(s.value, ast.ListComp)]
-    ok = False
-    if len(keep) == 1 and len(keep[0].value.generators) == 1 and len(keep[0].value.generators[0].ifs) == 1 and path_of(keep[0].value.generators[0].iter) == "self._entries":
-        f = atoms(keep[0].value.generators[0].ifs[0], True)
-        ok = len(f) == 1 and f[0].sig == ("le", "e.sequence_number", "self._synced_up_to_sequence") and path_of(keep[0].value.elt) == "e"
-    ctx.ob("C15-2", "G3", cr, keep[0] if keep else None, ok, "a crash keeps exactly the entries with sequence <= synced_up_to (all of them, nothing else)")
+    st_c, sig_c = filtered_copy(cr, "self._entries", "self._entries")[1:]
+    ctx.ob("C15-2", "G3", cr, st_c, sig_c == frozenset({("le", "E.sequence_number", "self._synced_up_to_sequence")}), "a crash keeps exactly the entries with sequence <= synced_up_to (all of them, nothing else)"
+           + ("" if sig_c else " — the rebuilt entry list is not a recognisable filter of the old one"))
     tr = prog.func(WAL, "WriteAheadLog.truncate")
-    keep = [s for s in walk_stmts(tr.node.body) if isinstance(s, ast.Assign) and path_of(s.targets[0]) == "self._entries" and isinstance(s.value, ast.ListComp)]
-    ok = False
-    if len(keep) == 1 and len(keep[0].value.generators[0].ifs) == 1:
-        f = atoms(keep[0].value.generators[0].ifs[0], True)
-        ok = len(f) == 1 and f[0].sig == ("lt", tr.params()[1], "e.sequence_number") and path_of(keep[0].value.elt) == "e"
-    ctx.ob("C15-2", "G3", tr, keep[0] if keep else None, ok, "truncate(n) removes exactly the prefix with sequence <= n")
+    st_t, sig_t = filtered_copy(tr, "self._entries", "self._entries")[1:]
+    ctx.ob("C15-2", "G3", tr, st_t, sig_t == frozenset({("lt", tr.params()[1], "E.sequence_number")}), "truncate(n) removes exactly the prefix with sequence <= n"
+           + ("" if sig_t else " — the rebuilt entry list is not a recognisable filter of the old one"))
     rc = prog.func(WAL, "WriteAheadLog.recover")
     srt = [c for c in calls_in(rc.node) if path_of(c.func) == "sorted" and path_of(c.args[0]) == "self._entries"]
     okr = len(srt) == 1 and any(k.arg == "key" and "sequence_number" in unparse(k.value) for k in srt[0].keywords) and not any(k.arg == "reverse" for k in srt[0].keywords)
@@ -213,6 +207,20 @@ def run(ctx: Ctx) -> None:
     cb = prog.func(LSM, "LSMTree._wal_checkpoint_bound")
     rets = [s for s in walk_stmts(cb.node.body) if isinstance(s, ast.Return) and s.value is not None and not isinstance(s.value, ast.Constant)]
     okb = len(rets) == 1 and unparse(rets[0].value).replace(" ", "") == "min(self._wal_in_flight,default=self._wal._next_sequence)-1"
+    if not okb:
+        # the same function written out: tabulate it for an empty and a non-empty in-flight set
+        def _min(e_, c_):
+            vals = e_.ev(c_.args[0])
+            dflt = [k_.value for k_ in c_.keywords if k_.arg == "default"]
+            return min(vals) if vals else (e_.ev(dflt[0]) if dflt else None)
+        try:
+            outs = []
+            for inflight, nxt in (((), 7), ((5, 9), 12), ((3,), 4)):
+                ev_ = OrderEval({"self._wal_in_flight": inflight, "self._wal._next_sequence": nxt, "self._wal": {"_next_sequence": nxt}}, calls={"min": _min})
+                outs.append(ev_.run(cb.node))
+            okb = outs == [6, 4, 2]
+        except NotTabulable:
+            okb = False
     ctx.ob("C15-3", "G3", cb, rets[0] if rets else None, okb, "the checkpoint bound is one below the oldest sequence number still in flight (or below the next one to be issued)")
     # every other truncate call in the package uses the same bound
     for fn in prog.all_functions("happysimulator/components/storage/"):
